@@ -167,3 +167,13 @@ func Consts(rep *emit.Report) {
 	rep.Consts["circuitbreaker.{SlowRequestRatio,ErrorRatio,ErrorCount}"] = []uint32{uint32(cb.SlowRequestRatio), uint32(cb.ErrorRatio), uint32(cb.ErrorCount)}
 	rep.Consts["system.{Load,AvgRT,Concurrency,InboundQPS,CpuUsage,MetricTypeSize}"] = []uint32{uint32(system.Load), uint32(system.AvgRT), uint32(system.Concurrency), uint32(system.InboundQPS), uint32(system.CpuUsage), uint32(system.MetricTypeSize)}
 }
+
+// CoqConsts prints the case that compares the enum values the model hard-codes with the packages'.
+func CoqConsts(id int) string {
+	v := []int64{int64(flow.Direct), int64(flow.WarmUp), int64(flow.MemoryAdaptive), int64(flow.Reject), int64(flow.Throttling),
+		int64(flow.CurrentResource), int64(flow.AssociatedResource), int64(isolation.Concurrency),
+		int64(hotspot.Concurrency), int64(hotspot.QPS), int64(hotspot.Reject), int64(hotspot.Throttling),
+		int64(cb.SlowRequestRatio), int64(cb.ErrorRatio), int64(cb.ErrorCount),
+		int64(system.Load), int64(system.AvgRT), int64(system.Concurrency), int64(system.InboundQPS), int64(system.CpuUsage), int64(system.MetricTypeSize)}
+	return "CConsts " + emit.Z(int64(id)) + " " + emit.ListZ(v)
+}
